@@ -385,7 +385,10 @@ def constructLine (line : String) : String :=
       let bad : List String :=
         (match geomSec ss "H" with
          | some (some _) => (match hull with
-            | some h => if (if sec ss "K" == some ["grid"] then hullCheck pts h else hullCheckWeak pts h) then [] else ["hull"]
+            | some h => if (if sec ss "K" == some ["grid"] then hullCheck pts h else hullCheckWeak pts h) then [] else
+                -- an exactly collinear run of output vertices points at the inexact orientation predicate
+                [if (match h with | .ring r => (cornerTurns r).any (fun t => det t.1 t.2.1 t.2.2 == 0) | _ => false)
+                 then "hull(exactly-collinear-hull-vertices)" else "hull"]
             | none => ["hull-shape"])
          | some none => ["hull-error"] | none => []) ++
         (match geomSec ss "E" with
